@@ -311,6 +311,55 @@ class RoundTrip:
                     bad("enum_labels", "enum column read %s type %s" % (list(par["EN"]["flavor"]), par.type("EN", "flavor")), {})
             except Exception as e:
                 bad("enum_labels", "raised %s: %s" % (type(e).__name__, e), {})
+            # ---- the same enum type name declared differently by successive files of one process (nothing may be remembered between objects) ----
+            for labels, vals in ((("OK", "BAD"), ["OK", "BAD", "OK"]), (("OK", "INCOMPLETE", "FAILED"), ["INCOMPLETE", "OK", "FAILED"]), (("Z",), ["Z", "Z", "Z"])):
+                count[0] += 1
+                a = np.zeros((3,), dtype=[("status", "S12"), ("n", "i4")])
+                a["status"] = [v.encode() for v in vals]
+                try:
+                    par, text = _roundtrip(a, "run", enums={"status": ("STATUS", labels)})
+                    got = [x.decode() for x in par["RUN"]["status"]]
+                    if got != vals:
+                        bad("enum_labels", "enum STATUS %s: wrote %s read %s" % (labels, vals, got), dict(labels=list(labels)))
+                except Exception as e:
+                    bad("enum_labels", "raised %s: %s" % (type(e).__name__, e), dict(labels=list(labels)))
+            # ---- several tables whose names are suffixes / prefixes of each other and share column names of different types --------------
+            for names in (("rawspec", "spec"), ("spec", "rawspec"), ("obj", "subobj", "bj"), ("Ab", "b", "AB2")):
+                count[0] += 1
+                kinds_ = ["f4", "f8", "i2", "i8"]
+                tabs = []
+                for k, nm in enumerate(names):
+                    t_ = np.zeros((2,), dtype=[("flux", kinds_[k % 4]), ("id", kinds_[(k + 2) % 4]), ("tag", "S%d" % (3 + k))])
+                    t_["flux"] = [1, 2] if kinds_[k % 4][0] == "i" else [1.0 / 3.0, 1.0e10 / 7.0]
+                    t_["id"] = [7, 8] if kinds_[(k + 2) % 4][0] == "i" else [0.1, 0.7]
+                    t_["tag"] = [b"x" * (3 + k), b"y"]
+                    tabs.append(t_)
+                try:
+                    par, text = _roundtrip(tuple(tabs), list(names))
+                    for nm, t_ in zip(names, tabs):
+                        r_ = par[nm.upper()]
+                        if r_.dtype != t_.dtype or not all(_same_bits(r_[c_], t_[c_]) for c_ in t_.dtype.names):
+                            bad("tables_names_order_rows", "tables %s: %s wrote %s read %s" % (names, nm, t_.dtype, r_.dtype), dict(names=list(names)))
+                            break
+                except Exception as e:
+                    bad("tables_names_order_rows", "tables %s raised %s: %s" % (names, type(e).__name__, e), dict(names=list(names)))
+            # ---- Table metadata of the usual scalar kinds come back as their text form ----------------------------------------------------
+            with tempfile.TemporaryDirectory() as tmp, warnings.catch_warnings():
+                warnings.simplefilter("ignore")
+                count[0] += 1
+                tb = Table({"a": np.array([1, 2], dtype="i4")})
+                meta = {"name": "abc def", "version": 3, "mjd": np.int64(54321), "exptime": np.float32(0.5), "airmass": 1.25, "flag": True, "ratio": np.float64(2.5)}
+                tb.meta = dict(meta)
+                fn = os.path.join(tmp, "meta.par")
+                try:
+                    write_table_yanny(tb, fn, tablename="m")
+                    back = read_table_yanny(fn, tablename="m")
+                    want = {k: str(v) for k, v in meta.items()}
+                    gotm = {k: back.meta.get(k) for k in meta}
+                    if gotm != want:
+                        bad("table_entry_points", "Table metadata wrote %s read %s" % (want, gotm), {})
+                except Exception as e:
+                    bad("table_entry_points", "metadata round trip raised %s: %s" % (type(e).__name__, e), {})
             res["paths"] = res["native_runs"] = count[0]
             kinds = ["string_cell_first_column", "string_cell_last_column", "string_array_element", "numeric_bit_identical", "string_width_and_shape",
                      "tables_names_order_rows", "mixed_columns_with_related_names", "header_value_text", "table_entry_points", "unsupported_kind_refused", "enum_labels"]
